@@ -21,6 +21,10 @@ CLAIMED = {
          "Loop-free Hoare triples over IEEE doubles, decided by cbmc with the cvc5 back end: after one step of the plain, single-neuron and fuzzy-tuned controllers from an ARBITRARY prior state (all fields any double incl. NaN/inf; finite ordered output limits) the output lies in [outmin,outmax] and is what is returned - so it holds after every history; the positional integrator never moves further beyond its clamp and is frozen when outside and pushed outward (ki >= 0, summin <= 0 <= summax); bookkeeping of feedback/error/var; zero == init. Positional and incremental difference equations are equalities with the documented formula on the exact integer domain (bounded-domain units).",
          "trusted: cbmc 6.11.0 float encoding + cvc5; assumed: induction over histories, a_pid_fuzzy_out_ by its frame contract, pos/inc coincidence by exact algebra from the two equations; 'state stays finite' not applicable",
          "contract-based deductive verification with CBMC: Hoare triples from arbitrary state (inductive invariant = true), contract replacement of the gain scheduler", "5/C12"),
+ "C13": ("proof",
+         "Hoare triples over IEEE doubles (cvc5 back end, one query per obligation): tri/trap/lins/linz for all finite inputs up to 2^500 and every ordered tuple incl. degenerate shoulders - exact 0 outside the support, exact 1 on the core/peak, the flank formula, never NaN, never negative; gauss/gauss2/sig/gbell within [0,1] from the sign structure given assumed libm contracts; min/max/bounded/algebraic operators: commutativity, range, exact boundary cases; the dispatcher a_mf evaluates exactly the specific function with a[0..arity) (specific functions replaced by recording contracts). Bounded units: s/z/pi structure on the exact integer domain, class bounds of the operators on k/1024, the parameter-table walk for tables of <= 2 (quick) / 3 entries, the gain scheduler's scratch buffer for 1-2 (quick) / 3 active sets and rule bases of order <= 7 (exact-size heap blocks).",
+         "trusted: cbmc 6.11.0 float encoding, cvc5; libm exp/pow/sqrt by assumed contracts; flank range/continuity/monotonicity and 'gains between smallest and largest consequent' not applicable (IEEE division/weighted mean)",
+         "contract-based deductive verification with CBMC: Hoare triples, recording contracts (replace-call-with-contract), bounded stand-ins for table walk and scratch buffer", "5/C13"),
 }
 
 PENDING_REASON = "check not built yet in this session (work in progress; see DESIGN.md section 5 for the planned contracts)"
